@@ -155,8 +155,12 @@ draw_reader(struct channel_reader* r, int registered)
     if (registered) {
         r->id = ND(unsigned);
         VASSUME(1 <= r->id && r->id <= ch.holds.n);
-        if (r->state == ChannelState_Mapped)
+        if (r->state == ChannelState_Mapped) {
             VASSUME(inv_mapped_reader(&ch, r));
+#ifdef ALIGNED
+            VASSUME((r->pos & 7) == 0); /* the end of a mapped run is a write boundary (established by read_map below) */
+#endif
+        }
     } else {
         r->id = 0;
         r->state = ChannelState_Unmapped;
